@@ -40,6 +40,39 @@ def history(rng, seed, ndraws, dense, bulk):
     return ops
 
 
+B48 = 2 ** 48
+
+
+def directed_state(rng):
+    """a well-formed generator state (entries in [0,2^48), carry 0/1, jr = ir_old + 7 mod 12)
+    built from few distinct values so that exact ties (difference 0 or -1 before the borrow
+    test), zeros and the maximum 2^48-1 occur in almost every refill; given to the real class
+    through a restart file"""
+    r = rng.randrange(B48)
+    pool = [0, 0, 1, 2, B48 - 1, B48 - 2, r, (B48 - r) % B48, (r + 1) % B48, 2 ** 47]
+    kind = rng.choice(["zero", "max", "equal", "pool", "pool", "pool", "two"])
+    if kind == "zero":
+        x = [0] * 12
+    elif kind == "max":
+        x = [B48 - 1] * 12
+    elif kind == "equal":
+        x = [r] * 12
+    elif kind == "two":
+        a, b = rng.choice(pool), rng.choice(pool)
+        x = [rng.choice([a, b]) for _ in range(12)]
+    else:
+        x = [rng.choice(pool) for _ in range(12)]
+    c = rng.choice([0, 1])
+    io = rng.randrange(12)
+    ir = rng.choice([io, (io + 11) % 12, rng.randrange(12)])
+    ops = ["state " + " ".join(map(str, x)) + " %d %d %d %d 397" % (c, ir, (io + 7) % 12, io)]
+    for i in range(rng.choice([13, 26, 60])):
+        ops.append("next")
+        if rng.random() < 0.05:
+            ops.append("restore")
+    return ops, kind
+
+
 def run(ctx):
     ctx.level = "proof"
     ctx.assumptions += [
@@ -65,6 +98,12 @@ def run(ctx):
         o = history(rng, s, ndraws, dense, bulk)
         hist_of.append((s, len(ops), len(ops) + len(o)))
         ops += o
+    # directed states: ties, zeros, maxima (random seeds hit an exact tie with probability 2^-48)
+    nstates = ctx.budget(400, 20000)
+    ops.append("seed 42")
+    for _ in range(nstates):
+        o, kind = directed_state(rng)
+        ops += o
     # different seeds -> different streams (oracle on the implementation, answer compared too)
     npairs = ctx.budget(300, 20000)
     pairs = [(1, 2), (0, 2), (M31 - 1, 1), (M31 - 1, M31 - 2), (42, 43), (1, M31 // 2), (1, 1 + 2 ** 30)]
@@ -76,13 +115,13 @@ def run(ctx):
     ops.append("seed 42")
     ops += ["differ %d %d" % p for p in pairs]
     ctx.cov["rule"] = ("one case = one compared answer line (a draw, a hashed run of draws, a state after seeding / dump / restore, or a seed pair); "
-                       "seeds {0,1,2,42,2^31-1} + random in [1,2^31) + values outside the 31 bit range; save/restore after every one of the first 160 draws "
+                       "seeds {0,1,2,42,2^31-1} + random in [1,2^31) + values outside the 31 bit range; directed well-formed states with exact ties/zeros/maxima loaded through a restart file; save/restore after every one of the first 160 draws "
                        "(all 144 pairs of read index and refill index) and at random later; distinct = (seed, op index) ; non-trivial = the draw crossed a refill or followed a restore")
     if not ok:
         return 1
     n, impl, model, orc = ctx.correspond("ranlux", h, vlib.driver("drv_c13"), ops,
                                          cmp=lambda a, b, op: a == vlib.strip_branch(b),
-                                         group_start=lambda op: op.startswith("seed"))
+                                         group_start=lambda op: op.startswith("seed") or op.startswith("state"))
     draws = 0
     exact = 0
     seed = None
@@ -100,6 +139,9 @@ def run(ctx):
         elif op == "next":
             draws += 1
             tag = ml.split(" #")[1] if " #" in ml else "?"
+            if "+" in tag:
+                tag, ext = tag.split("+")
+                ctx.branch("output-" + ext)
             ctx.branch(tag)
             if after_restore:
                 ctx.branch("next-after-restore-" + tag.replace("refill-ir", "refill@"))
@@ -109,6 +151,10 @@ def run(ctx):
             draws += int(op.split()[1])
             ctx.branch("skip")
             ctx.distinct((seed, i))
+        elif op.startswith("state"):
+            seed = op
+            ctx.branch("directed-state")
+            ctx.distinct(op)
         elif op == "restore":
             after_restore = True
             st = ml.split()
@@ -125,7 +171,7 @@ def run(ctx):
     ctx.cov["tolerance"] = "none (64 bit patterns identical)"
     ctx.cov["restore_positions_(ir,ir_old)_covered"] = "%d/144" % len(pos)
     ctx.cov["seeds"] = seeds
-    need = ["plain"] + ["refill-ir%d" % i for i in range(12)] + ["restore", "seed", "differ-first-0"]
+    need = ["plain"] + ["refill-ir%d" % i for i in range(12)] + ["restore", "seed", "differ-first-0", "directed-state", "output-zero", "output-max"]
     missing = [b for b in need if b not in ctx.cov["branch_histogram"]]
     if len(pos) < 144:
         missing.append("restore at %d (ir, ir_old) pairs" % (144 - len(pos)))
